@@ -19,7 +19,9 @@ BAD_FRAGMENTS = {
     "bracket": [b"[1}", b"{\"a\":1]", b"[[1]}", b"{\"a\":[1}}", b"[", b"{", b"[1", b"{\"a\":1", b"[[1]", b"[{\"a\":1]", b"]", b"}", b"[}", b"{]"],
     "literal": [b"True", b"TRUE", b"False", b"NULL", b"Null", b"nul", b"tru", b"fals", b"nULL", b"tRue", b"n", b"t", b"f",
                 b"nil", b"none", b"treu", b"flase", b"nulL", b"truE", b"falsE", b"undefined", b"yes"],
-    "digitless_number": [b"-", b"+", b".", b"e", b"E", b"-e1", b".e1", b"--1", b"-+1", b"+-1", b"-a", b"- 1", b"-\"1\"", b"e5", b"E-5", b"-]"],
+    "digitless_number": [b"-", b"+", b".", b"e", b"E", b"-e1", b".e1", b"--1", b"-+1", b"+-1", b"-a", b"- 1", b"-\"1\"", b"e5", b"E-5", b"-]",
+                         # long runs of number characters without a digit after the sign (no accept verdict beyond 63, but nothing may be left behind)
+                         b"-" * 62, b"-" * 63, b"-" * 64, b"-" * 65, b"-" + b"e" * 70, b"-." + b"e+" * 40, b"-" * 200],
     "unterminated_string": [b"\"abc", b"\"", b"\"abc\\\"", b"\"a\\\\\\\"", b"\"abc\\", b"\"\\u1234", b"\"a\nb"],
     "unknown_escape": [b"\"\\a\"", b"\"\\x41\"", b"\"\\U0041\"", b"\"\\'\"", b"\"\\0\"", b"\"\\ \"", b"\"\\\n\"", b"\"\\v\"", b"\"\\e\"",
                        b"\"\\N\"", b"\"\\B\"", b"\"\\T\"", b"\"ab\\qcd\"", b"\"\\1\"", b"\"\\\xc3\xa9\""],
